@@ -41,7 +41,7 @@ FUNCS = [
     ("ubxmessage.py", "UBXMessage._set_attribute_bits"), ("ubxmessage.py", "UBXMessage._set_attribute_bitfield"),
     ("ubxmessage.py", "UBXMessage._set_attribute_cfgval"),
     ("ubxhelpers.py", "key_from_val"), ("ubxhelpers.py", "msgstr2bytes"), ("ubxhelpers.py", "msgclass2bytes"),
-    ("ubxhelpers.py", "cfgname2key"), ("ubxhelpers.py", "bytes2val"), ("ubxhelpers.py", "val2bytes"),
+    ("ubxhelpers.py", "cfgname2key"), ("ubxhelpers.py", "bytes2val"), ("ubxhelpers.py", "val2bytes"), ("ubxhelpers.py", "cfgkey2name"),
     ("ubxmessage.py", "UBXMessage.msg_cls"), ("ubxmessage.py", "UBXMessage.msg_id"), ("ubxmessage.py", "UBXMessage.msgmode"),
     ("ubxmessage.py", "UBXMessage._calc_num_repeats"), ("ubxmessage.py", "UBXMessage._set_attribute"),
     ("ubxmessage.py", "UBXMessage._set_attribute_group"), ("ubxmessage.py", "UBXMessage._set_attribute_single"),
@@ -59,6 +59,10 @@ def enc(s: str) -> int:
     return int.from_bytes(s.encode("utf-8"), "big")
 
 
+# functions whose f-strings are evaluated part by part (see `Tr.E`, JoinedStr)
+EVAL_FSTRINGS = {"cfgkey2name"}
+
+
 class Tr:
     def __init__(self, params, kwparam=None, value_lists=()):
         self.locals = set(params)
@@ -67,6 +71,7 @@ class Tr:
         self.fresh_lists = set()
         self.value_lists = set(value_lists)
         self.assumed_total = []
+        self.eval_fstrings = False
 
     def nm(self, s):
         self.names[s] = enc(s)
@@ -127,6 +132,19 @@ class Tr:
             if x is not None:
                 # the `_NN` suffix of a group member's name: kept, as a call the host interprets
                 return f"(.call {self.nm('__sfx02d__')} [{self.E(x)}] [] [])"
+            if self.eval_fstrings:
+                # this function's f-strings carry behaviour (a lookup that can raise, a name that is looked up later): the
+                # parts are evaluated in order and handed to the host, literal text as text, a format spec as one more text
+                parts = []
+                for v in n.values:
+                    if isinstance(v, ast.Constant):
+                        parts.append(f"(.str {self.nm(v.value)})")
+                    else:
+                        parts.append(self.E(v.value))
+                        if v.format_spec is not None:
+                            spec = "".join(x.value for x in v.format_spec.values if isinstance(x, ast.Constant))
+                            parts.append(f"(.str {self.nm(spec)})")
+                return f"(.call {self.nm('__fstr__')} {self.lst(parts)} [] [])"
             # any other f-string is an uninspected text; its sub-expressions are NOT evaluated — recorded, so that the
             # assumption "formatting these cannot raise or have an effect" can be read off code_facts.json
             for v in n.values:
@@ -491,6 +509,7 @@ def main():
             out.append(f"/-- `{qual}`: outside the translatable fragment: {e} -/\ndef {ident} : Fn := {{ params := [], body := [] }}")
             continue
         tr = Tr(list(allp) + sorted(stored), a.kwarg.arg if a.kwarg else None, vl)
+        tr.eval_fstrings = qual in EVAL_FSTRINGS
         try:
             body = tr.B(node.body)
             legend = ", ".join(f"{k}={hex(v)}" for k, v in sorted(tr.names.items()))
